@@ -478,6 +478,20 @@ def gost_sbox(rep, u, us_small):
             ok = all(sorted(int(x) for x in row) == list(range(16)) for row in rows)
             n += 1
             (rep.proved if ok else rep.violated)("R-TBL", fn, "sbox:" + g["n"], "each of the 8 rows of %s is a permutation of 0..15" % g["n"])
+            # values against the reference copy of the standards' tables (refdata/gost28147_sboxes.json, see its provenance)
+            import json, os
+            ref = json.load(open(os.path.join(driver.VERIF, "refdata", "gost28147_sboxes.json")))["tables"]
+            desc = "%s holds the standard's values (RFC 4357 / RFC 7836)" % g["n"]
+            if g["n"] not in ref:
+                rep.undecided("R-TBL", fn, "sbox-values:" + g["n"], desc, "no reference table for this set")
+            else:
+                got = [int(x) for x in v]
+                diff = [i for i in range(128) if got[i] != ref[g["n"]][i]]
+                if diff:
+                    rep.violated("R-TBL", fn, "sbox-values:" + g["n"], desc, "row %d column %d holds 0x%x, the standard has 0x%x (%d entries differ)" % (
+                        diff[0] // 16, diff[0] % 16, got[diff[0]], ref[g["n"]][diff[0]], len(diff)))
+                else:
+                    rep.proved("R-TBL", fn, "sbox-values:" + g["n"], desc, "128 entries equal the reference")
     rep.floor("GOST S-box sets", n, 5)
     # expanded-table lookup: sboxx[j][(src >> 8j) & 0xff]
     ret = [r for pos, r in fn.returns()]
